@@ -421,7 +421,7 @@ func runCheck(repo, verif, prop, tier, keep string, claim bool) int {
 		en := all[n]
 		if _, known := cl.NotOwned[n]; known {
 			if !okStatus(en.r) {
-				if kf := matchFinding(findings, prop, n); kf != nil && en.fr != nil && confined(w, en.fr, en.r, kf, tier, seed) {
+				if kf := matchFinding(findings, prop, n); kf != nil && ((en.fr != nil && confined(w, en.fr, en.r, kf, tier, seed)) || (en.fr == nil && en.r.Solver == "ssa-scan")) {
 					line := fmt.Sprintf("KNOWN-FINDING: property=%s %s witness=%s %s", prop, n, kf.Witness, kf.What)
 					fmt.Println(line)
 					knownPrinted = append(knownPrinted, line)
@@ -436,6 +436,12 @@ func runCheck(repo, verif, prop, tier, keep string, claim bool) int {
 			continue
 		}
 		if !okStatus(en.r) {
+			if kf := matchFinding(findings, prop, n); kf != nil && en.fr == nil && en.r.Solver == "ssa-scan" {
+				line := fmt.Sprintf("KNOWN-FINDING: property=%s %s witness=%s %s", prop, n, kf.Witness, kf.What)
+				fmt.Println(line)
+				knownPrinted = append(knownPrinted, line)
+				continue
+			}
 			report(n, &en, "obligation that did not exist on the registered tree fails: solver answered "+en.r.Status)
 		}
 	}
